@@ -41,6 +41,7 @@ TIES = {
                            (4, 5), (4000, 80000), _bool, lambda r: r is not None),
     "analyze_prelude": ("_analyze_prelude_probe", [" ", "\t", "\n", "\r", "\x0b", "\x0c", "\xa0", "\u2003", "\u0085", "\u2028", "\ufeff", "a", "ls", ";", "'", "\x00"],
                         (4, 5), (3000, 60000), _ident, None),
+    "has_inert_opener": ("_has_inert_opener", ["$(", "`", "'", '"', "\\", "$", "(", "a", " ", ")"], (6, 7), (3000, 60000), _bool, bool),
     "plain_raw": ("_is_plain_raw", ["$(", ")", "(", "`", "#", " ", "\n", "'", '"', "\\", "a", ";", "${", "}"], (4, 5), (3000, 60000), _bool, bool),
 }
 
